@@ -14,6 +14,7 @@ import collections
 import json
 import random
 import re
+import threading
 import time
 
 from . import gen_resp as G
@@ -40,7 +41,7 @@ CORPUS = [
 
 
 def build_cases(ctx, families=None):
-    n = 900 if ctx.tier == "quick" else 12000
+    n = 700 if ctx.tier == "quick" else 12000
     # every program works on its own key namespace (the programs of a batch share one server)
     progs = [G.Program("corpus%d" % i, [[a.replace(b"corpus:", b"q%d:" % i) for a in cmd] for cmd in c]) for i, c in enumerate(CORPUS)]
     progs += G.gen_programs(ctx.seed, n, families)
@@ -180,6 +181,87 @@ def shrink_prog(d, prog, r, st, budget=45):
     return G.Program(prog.name, cmds)
 
 
+# ----------------------------------------------------------------------------- slow reader
+
+def slow_size():
+    """a value larger than what the server's send buffer plus the client's (fixed, small) receive
+    buffer can hold, so that the server is inside conn.Write for the whole pause"""
+    try:
+        wmax = int(open("/proc/sys/net/ipv4/tcp_wmem").read().split()[2])
+    except Exception:
+        wmax = 4 << 20
+    return max(6 << 20, wmax + wmax // 4 + (1 << 20))
+
+
+def slow_reader(d, pause_ms, tag, st, size=None):
+    """SET big; then GET big + PING in one write; the client reads nothing for pause_ms; then reads to
+    EOF.  The bytes are decoded by the extracted decode_stream: exactly [bulk = the stored value,
+    +PONG].  Returns (mismatch text or None, info)."""
+    size = size or slow_size()
+    raw, val, out = d / (tag + ".raw"), d / (tag + ".val"), d / (tag + ".out")
+    server = resplib.Server(d)
+    info = dict(size=size, pause_ms=pause_ms)
+    try:
+        if not server.start():
+            raise RuntimeError("could not start the server: " + server.stderr_tail())
+        st["server_starts"] += 1
+        rc, log = lib.sh([str(lib.BUILD / resplib.H), "slowread", server.addr(), str(size), str(pause_ms), str(raw), str(val), "131072"],
+                         cwd=d, timeout=pause_ms / 1000 + 1500)
+        line = (log.strip().splitlines() or [""])[-1].split()
+        if rc != 0 or len(line) < 4:
+            raise RuntimeError("harness_resp slowread rc=%s %s" % (rc, log[-500:]))
+        info.update(status=line[0], received=int(line[1]), recvq_at_wakeup=int(line[2]), read_ms=int(line[3]), server_alive=server.alive())
+        if line[0] != "EOF" or not server.alive():
+            return "kind=status model=EOF impl=%s%s" % (line[0], "" if server.alive() else " (the server process died)"), info
+        # the extracted decoder recurses once per payload byte: give it the stack, and a large minor
+        # heap (every minor collection scans that deep stack: 20 s with the default, 1.5 s with 32M words)
+        rc, log = lib.sh("ulimit -s unlimited 2>/dev/null || ulimit -s $(ulimit -Hs) 2>/dev/null; exec %s slowread %s %s %s"
+                         % (lib.BUILD / "c03run", raw, val, out), cwd=d, timeout=1800, extra_env={"OCAMLRUNPARAM": "s=32M"})
+        if rc != 0 or not out.exists():
+            raise RuntimeError("c03run slowread rc=%s %s" % (rc, log[-500:]))
+        txt = out.read_text().strip()
+        info["verdict"] = txt[:300]
+        return (None if txt.startswith("OK ") else txt.replace("MISMATCH ", "", 1)), info
+    finally:
+        server.stop()
+        for f in (raw, val):
+            try:
+                f.unlink()
+            except OSError:
+                pass
+
+
+def confirm_slow(d, pause_ms, st, first, size=None):
+    """the reproduction rule for the slow-reader scenario: 2 failures of the same kind in at most 3 runs"""
+    seen = collections.Counter([kind_of(first)] if first else [])
+    last = first
+    runs = 1
+    while runs < 3 and last is not None and max(seen.values()) < 2:
+        txt, info = slow_reader(d, pause_ms, "slowc%d" % runs, st, size)
+        runs += 1
+        if txt:
+            seen[kind_of(txt)] += 1
+            last = txt
+        elif runs - sum(seen.values()) >= 2:
+            return None
+    return last if seen and max(seen.values()) >= 2 else None
+
+
+def write_obligation(d):
+    """`harness_resp writecheck`: the premise write_atomic_or_close re-read from server/db_manager.go"""
+    out = d / "writecheck.json"
+    rc, log = lib.sh("%s writecheck %s %s" % (lib.BUILD / resplib.H, lib.REPO, out), cwd=d, timeout=120)
+    if rc != 0 or not out.exists():
+        return None, "writecheck failed: " + log[-800:]
+    facts = json.loads(out.read_text())
+    if facts["ok"]:
+        return facts, None
+    bad = [w for w in (facts.get("writes") or []) if not w["guarded"]] + (facts.get("unrecognised") or [])
+    why = "; ".join("%s:%s %s: %s" % (w["file"], w["line"], w["what"], w.get("why", "")) for w in bad[:4]) or \
+        "Handle/HandleCluster or their conn.Write calls not found: the code no longer has the shape the model describes"
+    return facts, "the reply writes of Manager.Handle/HandleCluster are neither deadline-free nor followed by closing the connection on error (premise write_atomic_or_close): " + why
+
+
 def stats(trace):
     shapes, kinds, cmds = set(), collections.Counter(), collections.Counter()
     crlf_bulks = err_lines = 0
@@ -208,6 +290,12 @@ def readable_prog(cmds):
 
 def replay(ctx, d):
     r = json.load(open(ctx.replay))
+    if r.get("kind") == "slow-reader":
+        st = dict(server_starts=0)
+        txt, info = slow_reader(d, int(r["pause_ms"]), "replay", st, int(r["size"]))
+        print(info)
+        print(txt or "two well-formed replies: the stored value, then +PONG")
+        return 1 if txt else 0
     if "commands_hex" not in r:
         print("replay file names no input (%s): re-running the proof gate only" % r.get("kind"))
         cov, broken = lib.proof_gate(ctx)
@@ -239,7 +327,20 @@ def run(ctx, families=None):
     r = random.Random(ctx.seed * 31337 + 11)
     st = dict(server_starts=0)
     failing, trace, progs = None, [], []
+    slow = dict(txt=None, info={}, err=None, done=False)
+    T = 6500 if ctx.tier == "quick" else 35000
+    wfacts, wbroken = None, None
     if not berr:
+        wfacts, wbroken = write_obligation(d)
+
+        def slow_job():
+            try:
+                slow["txt"], slow["info"] = slow_reader(d, T, "slow", st)
+                slow["done"] = True
+            except RuntimeError as ex:
+                slow["err"] = str(ex)
+        th = threading.Thread(target=slow_job, daemon=True)
+        th.start()      # runs next to the program batch: its 6.5 s of not reading cost no wall time
         try:
             progs = build_cases(ctx, families)
             server = resplib.Server(d)
@@ -290,22 +391,58 @@ def run(ctx, families=None):
             st["unreproduced_discrepancies"] = notes[:10]
         except RuntimeError as ex:
             berr = str(ex)
+        th.join()
+        try:
+            if failing is None and not berr:
+                if slow["err"]:
+                    raise RuntimeError(slow["err"])
+                txt, pause = slow["txt"], T
+                txt = confirm_slow(d, pause, st, txt) if txt else None
+                if slow["txt"] and not txt:
+                    st.setdefault("unreproduced_discrepancies", []).append(dict(case="slow-reader", mismatch=slow["txt"][:200], reproduced=False))
+                if txt is None and wbroken:
+                    # the structural premise is broken: look for the failing input with a longer pause
+                    pause = 15000 if ctx.tier == "quick" else 75000
+                    t1, info1 = slow_reader(d, pause, "slowlong", st)
+                    txt = confirm_slow(d, pause, st, t1) if t1 else None
+                    slow["info_long"] = info1
+                if txt:
+                    size = slow["info"].get("size") or slow_size()
+                    failing = dict(kind="slow-reader", mismatch=txt, size=size, pause_ms=pause,
+                                   scenario=["SET slow:reader<CR><LF>key <%d bytes>  -> +OK" % size, "GET slow:reader<CR><LF>key ; PING   (one write)",
+                                             "the client reads nothing for %d ms, then reads to EOF" % pause],
+                                   expected="two replies: the stored value as one bulk string, then +PONG",
+                                   structural_premise=wbroken or "holds (harness_resp writecheck)")
+        except RuntimeError as ex:
+            berr = str(ex)
     rc = 0
-    if failing:
+    if failing and failing.get("kind") == "slow-reader":
+        failing["note"] = ("the bytes the server wrote for the pipeline GET big; PING were decoded by the extracted decode_stream; kind=shape: they are not "
+                           "[one bulk string, +PONG] (a reply abandoned part-way with the next reply written behind it), kind=payload: the bulk differs from the "
+                           "stored value; re-run with ./check C03 --replay <this file>")
+        lib.violation(PID, failing)
+        ctx.violations += 1
+        rc = 1
+    elif failing:
         failing["note"] = ("raw reply bytes read from the server were decoded by the extracted decode_stream and compared with the extracted "
                            "srv_exec; kind=reply: reply i differs (a line-framed reply split by CR/LF shows up here), kind=count: not one reply "
                            "per command, kind=leftover: undecodable bytes, kind=status: the connection/process did not survive")
         lib.violation(PID, failing)
         ctx.violations += 1
         rc = 1
-    elif broken or berr:
-        lib.violation(PID, dict(kind="tie-broken", what=broken or berr), found_input=False)
+    elif broken or berr or wbroken:
+        lib.violation(PID, dict(kind="tie-broken", what=broken or berr or wbroken,
+                                searched=("slow-reader scenario with pauses of %d ms and a longer one found no failing input" % T) if wbroken and not (broken or berr) else None,
+                                writecheck=wfacts if wbroken else None), found_input=False)
         ctx.violations += 1
         rc = 1
     for kf in lib.known_findings(PID):
         if kf["kind"] == "open":
             print("KNOWN-FINDING: property=%s %s %s" % (PID, kf["id"], kf["text"]))
     shapes, kinds, cmds, crlf_bulks, err_lines = stats(trace)
+    cov["obligations"] += 1          # the structural premise write_atomic_or_close (harness_resp writecheck)
+    if wfacts and wfacts.get("ok") and not broken:
+        cov["discharged"] += 1
     samples = []
     for p in progs[7:9]:
         samples.append(dict(program=readable_prog(p.cmds)[:8], trace=[l for l in trace if l.startswith("S %s " % p.name)][:8]))
@@ -318,6 +455,9 @@ def run(ctx, families=None):
         commands={k: v for k, v in sorted(cmds.items())}, reply_kinds=dict(kinds),
         bulk_payloads_with_cr_or_lf_decoded=crlf_bulks, error_replies=err_lines, server_starts=st["server_starts"],
         unreproduced_discrepancies=st.get("unreproduced_discrepancies", []),
+        slow_reader=dict(slow["info"], pause_ms=T, note="SET big; GET big + PING in one write; client silent for pause_ms; reply bytes decoded by the extracted decode_stream: [bulk = stored value, +PONG]"),
+        write_obligation=dict(ok=bool(wfacts and wfacts.get("ok")), shape=(wfacts or {}).get("shape"), writes=len((wfacts or {}).get("writes") or []),
+                              deadlines_in_server=(wfacts or {}).get("deadlines_in_server") or [], deadlines_elsewhere=(wfacts or {}).get("deadlines_elsewhere") or []),
         samples=samples or ["(none)"],
         correspondence="bytes written by the real server (server.Start over TCP) decoded by extracted decode_stream: complete, one reply per command, equal to extracted srv_exec reply for reply",
     ))
